@@ -164,7 +164,20 @@ func run(c *core.Ctx) {
 		p := pairs[hi%len(pairs)]
 		dir, _ := os.MkdirTemp("", "verif-c12-")
 		a := authority.New(p[0], p[1], dir)
-		h := &hist{c: c, idx: hi, gname: fmt.Sprintf("history#%d %s", hi, a.Name()), a: a}
+		// where the shipped nonprod command line keeps its state the same way, half of the histories run their commands
+		// through cmd.MakeApp (flag parsing and component composition included) instead of the library entry points
+		viaCLI := a.CLIable() && (hi/len(pairs))%2 == 1
+		h := &hist{c: c, idx: hi, gname: fmt.Sprintf("history#%d %s cli=%v", hi, a.Name(), viaCLI), a: a}
+		flags := func(o authority.Opts) []string {
+			var fl []string
+			if o.Overwrite {
+				fl = append(fl, "--overwrite")
+			}
+			if o.KeepGoing {
+				fl = append(fl, "--keep_going")
+			}
+			return fl
+		}
 		c.Begin(hi, h.gname, "bootstrap/rotate/wipeout", nil)
 		now := t0
 		// the operator's clock may be in any zone; lifetimes are absolute durations whatever the zone
@@ -214,7 +227,12 @@ func run(c *core.Ctx) {
 				if r.IntN(4) == 0 {
 					bc.SigningKeyCommonName = fmt.Sprintf("signer-%d", step)
 				}
-				err = a.Bootstrap(f, opts, bc)
+				if viaCLI {
+					err = a.CLI(append([]string{"bootstrap", "--timestamp", now.Format(time.RFC3339), "--root_key_cn", bc.RootKeyCommonName, "--signing_key_cn", bc.SigningKeyCommonName,
+						"--root_key_serial", bc.RootKeySerial.String(), "--initial_signing_key_serial", bc.SigningKeySerial.String()}, flags(opts)...)...)
+				} else {
+					err = a.Bootstrap(f, opts, bc)
+				}
 				c.Eval(1)
 				if err == nil {
 					st := a.Observe()
@@ -251,7 +269,15 @@ func run(c *core.Ctx) {
 					skc.SigningKeyCommonName = fmt.Sprintf("signer-%d", step)
 				}
 				prev := a.Observe()
-				_, err = a.Rotate(f, opts, skc)
+				if viaCLI {
+					args := []string{"rotate", "--timestamp", now.Format(time.RFC3339), "--signing_key_cn", skc.SigningKeyCommonName}
+					if skc.SigningKeySerial != nil {
+						args = append(args, "--rotated_key_serial_override", skc.SigningKeySerial.String())
+					}
+					err = a.CLI(append(args, flags(opts)...)...)
+				} else {
+					_, err = a.Rotate(f, opts, skc)
+				}
 				c.Eval(1)
 				if err == nil {
 					st := a.Observe()
@@ -294,7 +320,17 @@ func run(c *core.Ctx) {
 				if pst := a.Observe(); pst.Err == "" {
 					known = append(known, pst.Root, pst.Primary)
 				}
-				err = a.Wipeout(f, opts, wca, wkeys)
+				if viaCLI {
+					args := []string{"wipeout"}
+					if !wkeys {
+						args = append(args, "ca")
+					} else if !wca {
+						args = append(args, "keys")
+					}
+					err = a.CLI(append(args, flags(opts)...)...)
+				} else {
+					err = a.Wipeout(f, opts, wca, wkeys)
+				}
 				c.Eval(1)
 				if err == nil {
 					st := a.Observe()
@@ -356,7 +392,10 @@ func run(c *core.Ctx) {
 				}
 				h.ep.n++
 			}
-			c.Cell("%s|%s|overwrite=%v|%s|epoch-pos=%d", a.Name(), kind, overwrite, outcome, min(h.ep.n, 5))
+			c.Cell("%s|cli=%v|%s|overwrite=%v|%s|epoch-pos=%d", a.Name(), viaCLI, kind, overwrite, outcome, min(h.ep.n, 5))
+			if viaCLI {
+				c.Count("commands-run-through-the-command-line", 1)
+			}
 		}
 		if hi < 5 {
 			c.Sample(map[string]any{"history": h.gname, "commands": cmds})
